@@ -3,3 +3,5 @@ import TsVerif.C09.Props
 #print axioms TsVerif.C09.decode_local
 #print axioms TsVerif.C09.lookahead_chunk_indep
 #print axioms TsVerif.C09.chars_chunk_dep_witness
+#print axioms TsVerif.C09.chars_chunk_indep
+#print axioms TsVerif.C09.chars_chunk_indep_two
